@@ -95,7 +95,69 @@ pub fn gen_case(idx: u64) -> Case {
     let mut body: Vec<String> = vec![];
     let n_items = rng.range(1, 4);
     for item in 0..n_items {
-        match rng.below(7) {
+        match rng.below(10) {
+            7 => {
+                // a literal inside a skipped conditional region, then literals in active text
+                let dead = gen_lit(&mut rng, 3, false);
+                let live = gen_lit(&mut rng, 4, false);
+                note(&mut c, &live);
+                let name = format!("s{}", item);
+                let mut b = live.bytes.clone();
+                b.push(0);
+                match rng.below(3) {
+                    0 => {
+                        lines.push("#if 0".into());
+                        lines.push(format!("const char dead{}[] = \"{}\";", item, dead.spelled));
+                        lines.push("#endif".into());
+                        lines.push(format!("const char {}[] = \"{}\";", name, live.spelled));
+                    }
+                    1 => {
+                        lines.push("#ifdef NOT_DEFINED_ANYWHERE".into());
+                        lines.push(format!("const char {}[] = \"{}\";", name, dead.spelled));
+                        lines.push("#else".into());
+                        lines.push(format!("const char {}[] = \"{}\";", name, live.spelled));
+                        lines.push("#endif".into());
+                    }
+                    _ => {
+                        lines.push("#if 1".into());
+                        lines.push(format!("const char {}[] = \"{}\";", name, live.spelled));
+                        lines.push("#else".into());
+                        lines.push(format!("const char {}[] = \"{}\";", name, dead.spelled));
+                        lines.push("#endif".into());
+                    }
+                }
+                c.positions.push("next to a literal in a skipped #if region".into());
+                c.expect.push((name, b));
+            }
+            8 => {
+                // initialiser of a local pointer, followed by another literal
+                let l1 = gen_lit(&mut rng, 3, false);
+                let l2 = gen_lit(&mut rng, 3, false);
+                note(&mut c, &l1);
+                note(&mut c, &l2);
+                body.push(format!("  char *lp{} = \"{}\";", item, l1.spelled));
+                body.push(format!("  sq = lp{}; sp = \"{}\";", item, l2.spelled));
+                c.positions.push("local pointer initialiser".into());
+                for l in [&l1, &l2] {
+                    let mut b = l.bytes.clone();
+                    b.push(0);
+                    c.expect.push(("@body".into(), b));
+                }
+            }
+            9 => {
+                // two calls with literal arguments in one expression; a parenthesised literal argument
+                let l1 = gen_lit(&mut rng, 3, false);
+                let l2 = gen_lit(&mut rng, 3, false);
+                let l3 = gen_lit(&mut rng, 3, false);
+                for l in [&l1, &l2, &l3] {
+                    note(&mut c, l);
+                    let mut b = l.bytes.clone();
+                    b.push(0);
+                    c.expect.push(("@body".into(), b));
+                }
+                body.push(format!("  out[0] = one(\"{}\") + one(\"{}\"); show(sp, (\"{}\"));", l1.spelled, l2.spelled, l3.spelled));
+                c.positions.push("sibling calls / parenthesised argument".into());
+            }
             0 | 1 => {
                 // const char s[] = "..."
                 let l = gen_lit(&mut rng, 5, false);
@@ -185,6 +247,7 @@ pub fn gen_case(idx: u64) -> Case {
         }
     }
     lines.push("void show(char *a, char *b) { sp = a; sq = b; }".into());
+    lines.push("char one(char *a) { sp = a; return 1; }".into());
     lines.push("void main() {".into());
     // an asm string is also a literal (its text goes to the output verbatim; decoded escapes)
     if rng.chance(1, 4) {
@@ -315,6 +378,7 @@ pub fn c09_pins() -> Vec<(&'static str, Case)> {
     };
     vec![
         ("sibling_call_literals", mk("char *p;\nunsigned char r;\nchar g(char *s) { p = s; return 1; }\nchar h(char *a, char *b) { p = a; p = b; return 1; }\nvoid main() { r = g(\"aa\") + g(\"bb\"); h(\"cc\", (\"dd\")); }\n", vec![("cctmp0", vec![97, 97, 0]), ("cctmp1", vec![98, 98, 0]), ("cctmp2", vec![99, 99, 0]), ("cctmp3", vec![100, 100, 0])], vec![])),
+        ("escaped_backslash_then_escaped_quote", mk("#if 0\nconst char d[] = \"\\\\\\\"/*\";\n#endif\nconst char s0[] = \"a\\\\\\\"b\";\nconst char s1[] = \"z\";\nvoid main() {}\n", vec![("s0", vec![97, 92, 34, 98, 0]), ("s1", vec![122, 0])], vec![])),
         ("formfeed_escape", mk("const char s0[] = \"a\\fb\";\nconst char ck = '\\f';\nvoid main() {}\n", vec![("s0", vec![97, 12, 98, 0])], vec![("ck", 12)])),
     ]
 }
@@ -359,7 +423,7 @@ impl Monitor for C09 {
         vec![
             ("distinct_nontrivial".into(), 5000),
             ("set:literal content classes".into(), 25),
-            ("set:literal positions".into(), 7),
+            ("set:literal positions".into(), 10),
             ("literals read back on the emulator".into(), 1000),
             ("character constants compared".into(), 500),
         ]
